@@ -149,6 +149,16 @@ var faults = []fault{
 	{"husb-no-name", dropLine("1 NAME Adam /Ash/")},
 	{"wife-no-name", dropLine("1 NAME Beth /Birch/")},
 	{"head-bad-date", insertAfter("0 HEAD", "1 DATE 2026-09-26", "1 SOUR x", "2 DATE sometime")},
+	// tags with a specialised node type written in lower or mixed case: unregistered tags to the decoder (plain nodes),
+	// which code that folds case anywhere must keep treating as plain
+	{"tag-lower-case-date", replaceLine("2 DATE 1 Jan 1870", "2 date 1 Jan 1870")},
+	{"tag-mixed-case-name", replaceLine("1 NAME Beth /Birch/", "1 Name Beth /Birch/")},
+	{"tag-lower-case-sex-plac", func(l []string) []string {
+		return replaceLine("1 SEX M", "1 sex M")(replaceLine("2 PLAC Oldtown, England", "2 plac Oldtown, England")(l))
+	}},
+	{"tag-mixed-case-birt-fams", func(l []string) []string {
+		return replaceLine("1 BIRT", "1 Birt")(replaceLine("1 FAMS @F1@", "1 Fams @F1@")(l))
+	}},
 	// a second marriage of the husband whose partner reference does not resolve
 	{"second-family-dangling-wife", func(l []string) []string {
 		return insertAfter("2 DATE 1 Jun 1825", "0 @F2@ FAM", "1 HUSB @I1@", "1 WIFE @I9@")(insertAfter("1 FAMS @F1@", "1 FAMS @F2@")(l))
@@ -241,6 +251,13 @@ func commands(tier string) []command {
 				}
 			}
 		}
+	}
+	// more workers than individuals (3 or 4 people in the file) and odd numbers of them
+	for _, jobs := range []string{"3", "4", "8", "16"} {
+		for _, right := range []string{"{FILE}", "{BASE}"} {
+			out = append(out, command{"diff", []string{"diff", "-left-gedcom", "{FILE}", "-right-gedcom", right, "-output", "{OUT}/diff.html", "-show", "all", "-sort", "written-name", "-jobs", jobs}})
+		}
+		out = append(out, command{"publish-show", []string{"publish", "-gedcom", "{FILE}", "-output-dir", "{OUT}", "-living", "show", "-jobs", jobs}})
 	}
 	for _, qs := range queries {
 		for _, f := range formats {
